@@ -44,12 +44,29 @@ def native_ps():
 
 @contextlib.contextmanager
 def quiet():
+    """silence the library's prints and z3's verbose output (C-level stderr) during native runs"""
     old = sys.stdout
     sys.stdout = io.StringIO()
+    saved = None
+    try:
+        sys.stderr.flush()
+        old.flush()
+        saved = (os.dup(1), os.dup(2))
+        dn = os.open(os.devnull, os.O_WRONLY)
+        os.dup2(dn, 1)
+        os.dup2(dn, 2)
+        os.close(dn)
+    except OSError:
+        saved = None
     try:
         yield
     finally:
         sys.stdout = old
+        if saved is not None:
+            os.dup2(saved[0], 1)
+            os.dup2(saved[1], 2)
+            os.close(saved[0])
+            os.close(saved[1])
 
 
 def run_native(contract, case, values, pins=None):
@@ -71,6 +88,22 @@ def run_native(contract, case, values, pins=None):
             return "outside", P, None
         except Exception as e:  # noqa
             return "raise", P, e
+        finally:
+            reset_z3_options()
+
+
+def reset_z3_options():
+    """the real SchedulingSolver sets *global* z3 options (verbosity, unsat cores, threads, seeds, timeout);
+    the checker's own queries must not inherit them"""
+    z3.set_option("verbose", 0)
+    z3.set_option(unsat_core=False)
+    z3.set_option("parallel.enable", False)
+    z3.set_option("sat.threads", 1)
+    z3.set_option("smt.threads", 1)
+    z3.set_option("sat.random_seed", 0)
+    z3.set_option("smt.random_seed", 0)
+    z3.set_option("smt.arith.random_initial_value", False)
+    z3.set_option("timeout", 4294967295)
 
 
 def exc_name(e):
